@@ -124,11 +124,20 @@ def run(chk):
         if i % 2 == 0:
             ubm = make_gmm(np.ones(2) / 2, X[:2] + np.array([[0.0] * D, [1.0] * D]), np.ones((2, D)))
             stats = [ubm.acc_stats(X[a:a + 3]) for a in range(0, N - 2, 2)]
+            starve_iv = (i % 4 == 0)
+            if starve_iv:          # a component that receives exactly no count from any training statistic
+                for st in stats:
+                    st.n = np.array(st.n, dtype=float)
+                    st.sum_px = np.array(st.sum_px, dtype=float)
+                    st.sum_pxx = np.array(st.sum_pxx, dtype=float)
+                    st.n[-1], st.sum_px[-1], st.sum_pxx[-1] = 0.0, 0.0, 0.0
             for upd in (False, True):
-                mv = iv.fit_machine(ubm, stats, 2, 3, upd, 1e-10, seed=7)
-                chk.count(1, key=("ivector", kind, upd))
-                if not (np.all(np.isfinite(mv.T)) and np.all(np.isfinite(mv.sigma)) and np.all(np.asarray(mv.sigma) >= 1e-10)):
-                    chk.fail("i-vector training on %s data gives non-finite T/sigma or sigma below the floor (update_sigma=%s)" % (kind, upd), dict(ctx, update_sigma=upd))
+                for fl in (1e-10, 2.5):          # 2.5 lies above every current covariance (the UBM's are 1): all of them must be lifted
+                    mv = iv.fit_machine(ubm, stats, 2, 3, upd, fl, seed=7)
+                    chk.count(1, key=("ivector", kind, upd, starve_iv, fl))
+                    if not (np.all(np.isfinite(mv.T)) and np.all(np.isfinite(mv.sigma)) and (not upd or np.all(np.asarray(mv.sigma) >= fl))):
+                        chk.fail("i-vector training on %s data gives non-finite T/sigma or sigma below the floor %g (update_sigma=%s, starved component: %s)" % (kind, fl, upd, starve_iv),
+                                 dict(ctx, update_sigma=upd, variance_floor=fl, starved_component=starve_iv, sigma=hexlist(mv.sigma)))
         if i < 2:
             chk.sample(ctx)
     bad, info = cq.run_cases("C13", gt.IMPORTS, "fit_case", "fit_check", terms, shard=40)
